@@ -332,6 +332,13 @@ Theorem C20_splitarray_rejections : forall (A : Type) nper (var : list A),
   (nper = 0 -> splitarray nper var = Err EOther) /\ (nper < 0 -> splitarray nper var = Ok []).
 Proof. exact @splitarray_rejections. Qed.
 
+(* total= influences the items only through None / zero / non-zero: floats, numpy scalars and bools may be driven
+   against the integer model *)
+Theorem C20_pbar_total_only_zeroness : forall s h t1 t2 items,
+  t1 <> 0 -> t2 <> 0 ->
+  pbar {| simple := s; has_len := h; total := Some t1 |} items = pbar {| simple := s; has_len := h; total := Some t2 |} items.
+Proof. exact pbar_total_only_zeroness. Qed.
+
 Definition task_exn_demo (x : Z) : result Z := if x =? 4 then Err EValue else if x =? 5 then Err EKey else Ok (x * x).
 
 (* Non-vacuity: concrete non-trivial instances meet the hypotheses and the conclusions compute. *)
